@@ -46,6 +46,8 @@ var (
 	SleepHook func(d Duration)
 	// OnTimer, when set, is told about timer creation/reset (scheduling point for the cooperative scheduler).
 	OnTimer func()
+	// OnFire, when set, is told whenever a timer fires (an external event for threads waiting in a select).
+	OnFire func()
 )
 
 // Timer mirrors time.Timer.
@@ -148,6 +150,9 @@ func fireDue() {
 		case t.ch <- epoch.Add(Duration(t.when)):
 		default:
 		}
+		if OnFire != nil {
+			OnFire()
+		}
 	}
 }
 
@@ -197,6 +202,21 @@ func NextTimer() (Time, bool) {
 	}
 	return epoch.Add(Duration(best.when)), true
 }
+
+// Epoch is the instant the virtual clock starts from.
+func Epoch() Time { return epoch }
+
+// NextTimerNs is NextTimer in ns since the start of the execution.
+func NextTimerNs() (int64, bool) {
+	t, ok := NextTimer()
+	if !ok {
+		return 0, false
+	}
+	return int64(t.Sub(epoch)), true
+}
+
+// AdvanceToNs moves the clock to ns since the start of the execution (never backwards).
+func AdvanceToNs(ns int64) { AdvanceTo(epoch.Add(Duration(ns))) }
 
 // Elapsed returns the virtual time since the last ResetClock.
 func Elapsed() Duration { mu.Lock(); defer mu.Unlock(); return Duration(now) }
